@@ -6,7 +6,7 @@
    U5 the top-level theorems, U6 nested insertion, U7 refuted forms, U8 Scan. *)
 From Verif Require Import Base.GoInt Proto.Ext Generated.ProtoGen Proto.Model Proto.PrimSpec Proto.PrimProofs Proto.Spec
   Proto.DecProofs Proto.UnknownSpec.
-From Verif Require Proto.RewriteSpec Proto.RewriteWire.
+From Verif Require Proto.RewriteModel Proto.RewriteSpec Proto.RewriteWire Proto.ScanModel.
 From Coq Require Import Lia ZifyBool ZifyNat.
 Open Scope Z_scope.
 
@@ -1378,8 +1378,9 @@ Proof.
     assert (Hfw : Wd (depth_ty ft) (sf_codec f) p p').
     { rewrite Ef. apply (field_Wd tag ft k' sub p p' Hsub); [|exact Hsubw].
       intros Hm. split; [apply Hmap; exact Hm | apply (widened_nonempty _ _ _ Hw)]. }
+    clear IH Hw Hsubw Hmap Hsub Hnok Hd Hall Hnc Hok Hin Hfok Hty Hwp.
     intros fuel old fl Hf Hf'. rewrite depth_ty_struct in Hf, Hf'.
-    rewrite codec_of_struct. destruct fuel as [|f0]; [lia|]. rewrite !decode_struct_eq.
+    rewrite codec_of_struct. destruct fuel as [|f0]; [clear - Hf; lia|]. rewrite !decode_struct_eq.
     apply fields_seq_pf in Hb1. destruct Hb1 as (l & Hl & ->).
     set (fields := cfields gfs 1) in *. set (flg := without fl proto_toplevel). set (maxn := max_number fields) in *.
     set (vs := match old with VStruct vs => vs | _ => [] end).
@@ -1388,25 +1389,357 @@ Proof.
     rewrite Eb in *. rewrite Eb' in *.
     set (b := pfs_bytes l ++ (tg ++ lp ++ p) ++ b2) in *. set (b' := pfs_bytes l ++ (tg ++ lp' ++ p') ++ b2) in *.
     set (L := Nat.max (length b) (length b')).
-    assert (HLlim : Z.of_nat L < lim) by (unfold L, len in *; lia).
-    assert (Hf0 : (L + fsdepth gfs + 1 <= f0)%nat) by (unfold L; lia).
+    assert (HLb : (length b <= L)%nat) by (unfold L; clear; lia).
+    assert (HLb' : (length b' <= L)%nat) by (unfold L; clear; lia).
+    assert (HLlim : Z.of_nat L < lim) by (clear - Hlim Hlim'; unfold L, len in *; lia).
+    assert (Hf0 : (L + fsdepth gfs + 1 <= f0)%nat) by (clear - Hf Hf'; unfold L; lia).
     assert (Hdeq : forall old' fl', deq (len p) (len p') (decode f0 (sf_codec f) p old' fl') (decode f0 (sf_codec f) p' old' fl')).
-    { intros old' fl'. apply Hfw; lia. }
-    pose proof (inside_loop gfs f0 L l tg lp lp' p p' b2 f i vs flg Hfs Hl Hlk Hemb Hwire ltac:(lia) Htg Hlp Hlp' Hdeq
-                  Hwf Hwf' Hlim Hlim' ltac:(unfold L; lia) ltac:(unfold L; lia) Hf0 HLlim) as Hrel.
+    { intros old' fl'. apply Hfw; clear - Hlen HLb HLb' Hf0 Hdep; lia. }
+    assert (Hn0 : 0 <= sf_number f) by (clear - Hrange; lia).
+    pose proof (inside_loop gfs f0 L l tg lp lp' p p' b2 f i vs flg Hfs Hl Hlk Hemb Hwire Hn0 Htg Hlp Hlp' Hdeq
+                  Hwf Hwf' Hlim Hlim' HLb HLb' Hf0 HLlim) as Hrel.
     fold fields maxn b b' in Hrel.
     pose proof (fields_dec gfs f0 L Hfs Hf0 HLlim) as Hdec. fold fields in Hdec.
+    assert (Hz : 0 <= 0 <= len b /\ 0 <= 0 <= len b') by (clear; unfold len; lia).
+    assert (Hk : (Z.to_nat (len b - 0) + 1 <= f0)%nat /\ (Z.to_nat (len b' - 0) + 1 <= f0)%nat)
+      by (clear - HLb HLb' Hf0; unfold len; lia).
     destruct (sloop_ok (decode f0) fields b flg maxn Hwf Hlim
-                (fun f1 Hin1 data oldf fl' Hw Hl' => Hdec f1 Hin1 data oldf fl' Hw ltac:(unfold L; lia)) f0 0 vs
-                ltac:(pose proof (len_nonneg b); lia) ltac:(unfold len, L in *; lia)) as (n & e & v & E & Hn).
+                (fun f1 Hin1 data oldf fl' Hw Hl' => Hdec f1 Hin1 data oldf fl' Hw (Nat.le_trans _ _ _ Hl' HLb)) f0 0 vs
+                (proj1 Hz) (proj1 Hk)) as (n & e & v & E & Hn).
     destruct (sloop_ok (decode f0) fields b' flg maxn Hwf' Hlim'
-                (fun f1 Hin1 data oldf fl' Hw Hl' => Hdec f1 Hin1 data oldf fl' Hw ltac:(unfold L; lia)) f0 0 vs
-                ltac:(pose proof (len_nonneg b'); lia) ltac:(unfold len, L in *; lia)) as (n' & e' & v' & E' & Hn').
+                (fun f1 Hin1 data oldf fl' Hw Hl' => Hdec f1 Hin1 data oldf fl' Hw (Nat.le_trans _ _ _ Hl' HLb')) f0 0 vs
+                (proj2 Hz) (proj2 Hk)) as (n' & e' & v' & E' & Hn').
     rewrite E, E' in Hrel. unfold relw in Hrel.
     destruct e as [e|].
     + destruct Hrel as (n2 & v2 & Hrel). inversion Hrel; subst.
       exists n, n2, (Some e), v, v2. split; [exact E|]. split; [exact E'|]. discriminate.
     + inversion Hrel; subst.
       exists n, (n + (len b' - len b)), None, v, v. split; [exact E|]. split; [exact E'|].
-      intros _. apply sloop_exit in E. split; [reflexivity|]. lia.
+      intros _. apply sloop_exit in E. split; [reflexivity|]. clear - E Hn. lia.
+Qed.
+
+Theorem unknown_nested_decode : unknown_nested_decode_statement.
+Proof.
+  intros t b b' old flags fuel Hok Hnok Hw Hwf Hwf' Hlim Hlim' Hf Hf'.
+  apply (nested_Wd t b b' Hw Hok Hnok Hwf Hwf' Hlim Hlim' fuel old flags Hf Hf').
+Qed.
+
+Lemma len_zero_nil (b : bytes) : len b =? 0 = true -> b = [].
+Proof. destruct b; [reflexivity | unfold len; cbn [length]; lia]. Qed.
+Lemma len_nonzero (b : bytes) : b <> [] -> len b =? 0 = false.
+Proof. destruct b; [congruence | unfold len; cbn [length]; lia]. Qed.
+
+Theorem unknown_nested : unknown_nested_statement.
+Proof.
+  intros t b b' old fuel Hok Hnok Hw Hwf Hwf' Hlim Hlim' Hf Hf' Hne.
+  destruct (unknown_nested_decode t b b' old proto_toplevel fuel Hok Hnok Hw Hwf Hwf' Hlim Hlim' ltac:(clear - Hf; lia) ltac:(clear - Hf'; lia))
+    as (n & n' & e & v & v' & E & E' & Hn).
+  assert (Ht : exists gfs, t = TStruct gfs) by (destruct Hw; eexists; reflexivity).
+  destruct Ht as (gfs & ->).
+  unfold Unmarshal. rewrite (len_nonzero b' (widened_nonempty _ _ _ Hw)). rewrite E'. cbn [rbind].
+  destruct (len b =? 0) eqn:G.
+  - apply len_zero_nil in G. subst b. destruct Hne as [Hne | ->]; [contradiction|].
+    rewrite codec_of_struct in E. destruct fuel as [|[|f]]; [clear - Hf; lia | clear - Hf; lia |].
+    rewrite decode_struct_empty in E. inversion E; subst.
+    destruct (Hn eq_refl) as (<- & _ & ->). rewrite Z.ltb_irrefl. eexists. split; reflexivity.
+  - rewrite E. cbn [rbind]. destruct e as [e|]; [eexists; split; reflexivity|].
+    destruct (Hn eq_refl) as (-> & -> & ->). rewrite !Z.ltb_irrefl. eexists. split; reflexivity.
+Qed.
+
+(* ================= U7: the refuted nested form (empty map entry) ================= *)
+Definition rn_t : gty := TStruct [GField true None (TMap TString TInt64)].
+Definition rn_f : sfield := match compiled rn_t with f :: _ => f | [] => SField 0 0 0 TBool CBool end.
+Lemma rn_widened : widened_any rn_t [10; 0] [10; 2; 72; 1].
+Proof.
+  apply (WA_inside [GField true None (TMap TString TInt64)] [] [] [10] [0] [2] [] [72; 1] rn_f (entry_ty TString TInt64)).
+  - constructor.
+  - vm_compute. left. reflexivity.
+  - reflexivity.
+  - vm_compute. reflexivity.
+  - vm_compute. reflexivity.
+  - vm_compute. reflexivity.
+  - apply (WA_here [GField true None TString; GField true None TInt64] [] [] [72; 1] 9 0); [constructor | exact rf_field |].
+    vm_compute. intros [H|[H|[]]]; discriminate.
+Qed.
+Theorem unknown_nested_any_refuted : ~ unknown_nested_any_statement.
+Proof.
+  intros H.
+  destruct (H rn_t [10; 0] [10; 2; 72; 1] 12%nat eq_refl eq_refl rn_widened eq_refl eq_refl eq_refl eq_refl) as (r & H1 & H2).
+  - vm_compute. lia.
+  - vm_compute. lia.
+  - vm_compute in H1, H2. congruence.
+Qed.
+
+(* ================= U8: the field scanner and field boundaries ================= *)
+(* what proto.Parse (model: Proto/RewriteModel.v) splits off is one complete field in the sense of UnknownSpec *)
+Lemma firstn_skipn_len (b : bytes) n : 0 <= n <= len b ->
+  b = firstn (Z.to_nat n) b ++ skipn (Z.to_nat n) b /\ len (firstn (Z.to_nat n) b) = n /\ len (skipn (Z.to_nat n) b) = len b - n.
+Proof.
+  intros H. split; [symmetry; apply firstn_skipn|]. unfold len in *. rewrite firstn_length, skipn_length. lia.
+Qed.
+
+Lemma skipn_skipn2 {A} : forall (y x : nat) (l : list A), skipn x (skipn y l) = skipn (y + x) l.
+Proof.
+  induction y as [|y IH]; intros x l; [reflexivity|].
+  destruct l; [destruct x; reflexivity | cbn [skipn Nat.add]; apply IH].
+Qed.
+
+Lemma parse_is_field b f t v m : wfb b = true -> len b < 2 ^ 62 ->
+  RewriteModel.Parse b = RewriteModel.ROk (f, t, v, m) -> exists u, b = u ++ m /\ is_field f t u /\ wfb m = true.
+Proof.
+  intros Hwf Hlen. rewrite RewriteWire.Parse_unfold.
+  destruct (proto_decodeVarint b) as [[tag n] err] eqn:E.
+  destruct err as [e|]; [discriminate|].
+  pose proof (dv_bounds b tag n None Hwf E) as (Hn & Htag & Hn1). specialize (Hn1 eq_refl).
+  rewrite RewriteWire.rfrom_ok by lia. cbn [RewriteModel.rrbind].
+  destruct (firstn_skipn_len b n ltac:(lia)) as (Eb & Ltg & Lm0).
+  set (tg := firstn (Z.to_nat n) b) in *. set (m0 := skipn (Z.to_nat n) b) in *.
+  assert (Htg : varint_of tg tag).
+  { unfold varint_of. rewrite Ltg. apply RewriteWire.decodeVarint_firstn; assumption. }
+  assert (Hw0 : wfb m0 = true) by (apply wfb_skipn; exact Hwf).
+  pose proof (len_nonneg m0) as N0.
+  unfold RewriteWire.pbody, RewriteModel.DecodeTag.
+  rewrite shr64_div by lia. unfold and64. rewrite land7. change (2 ^ 3) with 8.
+  assert (Etag : tag = tag / 8 * 8 + tag mod 8) by (pose proof (Z.div_mod tag 8); lia).
+  assert (Hf : 0 <= tag / 8) by (apply Z.div_pos; lia).
+  assert (Hfield : forall p r, m0 = p ++ r -> payload_of (tag mod 8) p -> v = v -> 
+            exists u, b = u ++ r /\ is_field (tag / 8) (tag mod 8) u).
+  { intros p r Em Hp _. exists (tg ++ p). split; [rewrite Eb, Em, <- app_assoc; reflexivity|].
+    exists tg, p. split; [reflexivity|]. split; [exact Hf|]. split; [rewrite <- Etag; exact Htg | exact Hp]. }
+  destruct (tag mod 8 =? proto_varint) eqn:T0.
+  { destruct (proto_decodeVarint m0) as [[x n2] e2] eqn:E2. destruct e2; [discriminate|].
+    pose proof (dv_bounds m0 x n2 None Hw0 E2) as (Hn2 & _ & Hn2'). specialize (Hn2' eq_refl).
+    destruct (len m0 <? n2) eqn:G; [discriminate|].
+    rewrite RewriteWire.rslice_ok by lia. cbn [RewriteModel.rrbind]. rewrite RewriteWire.rfrom_ok by lia. cbn [RewriteModel.rrbind].
+    intros H. inversion H; subst f t v m. clear H.
+    destruct (firstn_skipn_len m0 n2 ltac:(lia)) as (Em & Lp & Lr).
+    destruct (Hfield _ _ Em) as (u & Hu1 & Hu2); [|reflexivity|].
+    - replace (tag mod 8) with proto_varint by lia. apply P_varint with (x := x). unfold varint_of. rewrite Lp.
+      apply RewriteWire.decodeVarint_firstn; assumption.
+    - exists u. split; [exact Hu1|]. split; [exact Hu2 | pose proof Hwf as Hw'; rewrite Hu1 in Hw'; apply wfb_app2 in Hw'; exact (proj2 Hw')]. }
+  destruct (tag mod 8 =? proto_varlen) eqn:T2.
+  { destruct (proto_decodeVarint m0) as [[x n2] e2] eqn:E2. destruct e2; [discriminate|].
+    pose proof (dv_bounds m0 x n2 None Hw0 E2) as (Hn2 & Hx & Hn2'). specialize (Hn2' eq_refl).
+    rewrite w64_id by lia.
+    destruct (len m0 - n2 <? x) eqn:G; [discriminate|].
+    rewrite s64_id by lia.
+    rewrite RewriteWire.rslice_ok by lia. cbn [RewriteModel.rrbind]. rewrite RewriteWire.rfrom_ok by lia. cbn [RewriteModel.rrbind].
+    intros H. inversion H; subst f t v m. clear H.
+    destruct (firstn_skipn_len m0 n2 ltac:(lia)) as (Em & Lp & Lr).
+    set (m1 := skipn (Z.to_nat n2) m0) in *.
+    destruct (firstn_skipn_len m1 x ltac:(lia)) as (Em1 & Ls & Lr1).
+    replace (n2 + x - n2) with x by lia.
+    assert (Er : skipn (Z.to_nat (n2 + x)) m0 = skipn (Z.to_nat x) m1).
+    { unfold m1. rewrite skipn_skipn2. f_equal. lia. }
+    rewrite Er.
+    destruct (Hfield (firstn (Z.to_nat n2) m0 ++ firstn (Z.to_nat x) m1) (skipn (Z.to_nat x) m1)) as (u & Hu1 & Hu2);
+      [rewrite <- app_assoc, <- Em1; exact Em | | reflexivity |].
+    - replace (tag mod 8) with proto_varlen by lia. apply P_varlen. unfold varint_of. rewrite Ls, Lp.
+      apply RewriteWire.decodeVarint_firstn; assumption.
+    - exists u. split; [exact Hu1|]. split; [exact Hu2 | pose proof Hwf as Hw'; rewrite Hu1 in Hw'; apply wfb_app2 in Hw'; exact (proj2 Hw')]. }
+  destruct (tag mod 8 =? proto_fixed32) eqn:T5.
+  { destruct (len m0 <? 4) eqn:G; [discriminate|].
+    rewrite RewriteWire.rslice_ok by lia. cbn [RewriteModel.rrbind]. rewrite RewriteWire.rfrom_ok by lia. cbn [RewriteModel.rrbind].
+    intros H. inversion H; subst f t v m. clear H.
+    destruct (firstn_skipn_len m0 4 ltac:(lia)) as (Em & Lp & Lr).
+    destruct (Hfield _ _ Em) as (u & Hu1 & Hu2); [|reflexivity|].
+    - replace (tag mod 8) with proto_fixed32 by lia. apply P_fixed32. exact Lp.
+    - exists u. split; [exact Hu1|]. split; [exact Hu2 | pose proof Hwf as Hw'; rewrite Hu1 in Hw'; apply wfb_app2 in Hw'; exact (proj2 Hw')]. }
+  destruct (tag mod 8 =? proto_fixed64) eqn:T1; [|discriminate].
+  destruct (len m0 <? 8) eqn:G; [discriminate|].
+  rewrite RewriteWire.rslice_ok by lia. cbn [RewriteModel.rrbind]. rewrite RewriteWire.rfrom_ok by lia. cbn [RewriteModel.rrbind].
+  intros H. inversion H; subst f t v m. clear H.
+  destruct (firstn_skipn_len m0 8 ltac:(lia)) as (Em & Lp & Lr).
+  destruct (Hfield _ _ Em) as (u & Hu1 & Hu2); [|reflexivity|].
+  - replace (tag mod 8) with proto_fixed64 by lia. apply P_fixed64. exact Lp.
+  - exists u. split; [exact Hu1|]. split; [exact Hu2 | pose proof Hwf as Hw'; rewrite Hu1 in Hw'; apply wfb_app2 in Hw'; exact (proj2 Hw')].
+Qed.
+
+(* every byte string proto.Scan (model: Proto/ScanModel.v) walks to its end without error is a sequence of
+   complete fields: any point Scan stops at between two callbacks is a field boundary for the theorems above *)
+Lemma scan_fields : forall fuel b l, wfb b = true -> len b < 2 ^ 62 ->
+  ScanModel.scan fuel b = RewriteModel.ROk l -> fields_seq b.
+Proof.
+  induction fuel as [|k IH]; intros b l Hwf Hlen H.
+  - destruct b; [constructor | discriminate].
+  - destruct b as [|c b']; [constructor|]. set (b := c :: b') in *.
+    change (ScanModel.scan (S k) b) with
+      (match RewriteModel.Parse b with
+       | RewriteModel.ROk (fn, t, v, m) =>
+           match ScanModel.scan k m with
+           | RewriteModel.ROk l => RewriteModel.ROk ((fn, t, v) :: l)
+           | RewriteModel.RErr e => RewriteModel.RErr e
+           | RewriteModel.RPanic => RewriteModel.RPanic
+           | RewriteModel.RFuel => RewriteModel.RFuel
+           end
+       | RewriteModel.RErr e => RewriteModel.RErr e
+       | RewriteModel.RPanic => RewriteModel.RPanic
+       | RewriteModel.RFuel => RewriteModel.RFuel
+       end) in H.
+    destruct (RewriteModel.Parse b) as [[[[fn t] v] m]|e| |] eqn:EP; try discriminate.
+    destruct (parse_is_field b fn t v m Hwf Hlen EP) as (u & Eb & Hu & Hwm).
+    destruct (ScanModel.scan k m) as [l'|e| |] eqn:ES; try discriminate.
+    rewrite Eb. apply FS_cons with (num := fn) (wt := t); [exact Hu|].
+    apply (IH m l' Hwm); [|exact ES].
+    rewrite Eb in Hlen. rewrite len_app2 in Hlen. pose proof (len_nonneg u). lia.
+Qed.
+
+Theorem scan_boundary : scan_boundary_statement.
+Proof. intros b l Hwf Hlen H. apply (scan_fields (length b) b l Hwf Hlen H). Qed.
+
+(* ================= U9: the route through the wire-format specification of C12 ================= *)
+(* Corollary of WireProofs.unmarshal_reencoded_zz. In Proto/WireSpec.v a legal encoding of a message may carry, at
+   the top level and inside every embedded message (nested structs, elements of repeated message fields, message
+   values of maps -- but NOT directly inside a map entry), any number of records with undeclared numbers in
+   1 .. max_field_number, of every wire type. Two legal encodings of one message therefore decode to the same value
+   up to the nil-versus-empty distinction. Covered: struct types that are type_ok, tags_sane, plain (no byte arrays,
+   no RawMessage, no pointer map values) and zz_struct_ok, into a zero target, when decoding succeeds. The direct
+   theorems above need none of these restrictions and also preserve errors. *)
+From Verif Require Proto.WireSpec Proto.WireProofs.
+Definition c12_legal_encodings_agree_statement : Prop :=
+  forall bp t m w w', type_ok t = true -> WireSpec.is_struct_ty t = true -> numbers_ok (codec_of t) = true ->
+    WireSpec.tags_sane t = true -> WireSpec.plain t = true -> WireProofs.zz_struct_ok t = true ->
+    WireSpec.desc_wf (WireSpec.PMsg (WireSpec.fields_of t)) = true ->
+    WireSpec.msg_wf (WireSpec.PMsg (WireSpec.fields_of t)) (WireSpec.PVMsg m) = true ->
+    WireSpec.reencodes bp (WireSpec.fields_of t) m w -> WireSpec.reencodes bp (WireSpec.fields_of t) m w' ->
+    len w < lim -> len w' < lim ->
+    exists fuel fuel' r r', Unmarshal fuel t w (zero_val t) = Ok (Some r) /\
+                            Unmarshal fuel' t w' (zero_val t) = Ok (Some r') /\ norm r = norm r'.
+Corollary c12_legal_encodings_agree : c12_legal_encodings_agree_statement.
+Proof.
+  intros bp t m w w' Hty Hst Hnum Htag Hpl Hzz Hdw Hmw Hre Hre' Hlen Hlen'.
+  destruct (WireProofs.unmarshal_reencoded_zz bp t m w Hty Hst Hnum Htag Hpl Hzz Hdw Hmw Hre Hlen) as (fuel & r & v0 & E & Ev & En).
+  destruct (WireProofs.unmarshal_reencoded_zz bp t m w' Hty Hst Hnum Htag Hpl Hzz Hdw Hmw Hre' Hlen') as (fuel' & r' & v0' & E' & Ev' & En').
+  exists fuel, fuel', r, r'. split; [exact E|]. split; [exact E'|]. congruence.
+Qed.
+
+(* and conversely: Scan walks every sequence of complete fields to its end *)
+Lemma parse_of_field x r : pf_ok x -> wfb (pf_bytes x ++ r) = true -> len (pf_bytes x ++ r) < 2 ^ 62 ->
+  exists v, RewriteModel.Parse (pf_bytes x ++ r) = RewriteModel.ROk (pf_num x, pf_wt x, v, r).
+Proof.
+  destruct x as [num wt tg p]. unfold pf_ok, pf_bytes. cbn [pf_num pf_wt pf_tg pf_p].
+  intros (Hnum & Htg & Hp) Hwf Hlen.
+  assert (Hw := Hwf). rewrite <- app_assoc in Hw. apply wfb_app2 in Hw. destruct Hw as [HwT Hw].
+  apply wfb_app2 in Hw. destruct Hw as [Hwp HwR].
+  pose proof (varint_of_bounds _ _ HwT Htg) as [Hlt Htv]. pose proof (payload_wt _ _ Hp) as Hwt.
+  rewrite !len_app2 in Hlen. pose proof (len_nonneg r) as Nr. pose proof (len_nonneg p) as Np.
+  rewrite RewriteWire.Parse_unfold. rewrite <- app_assoc. rewrite (varint_of_app _ _ (p ++ r) Htg).
+  rewrite RewriteWire.rfrom_ok by (rewrite !len_app2; lia). cbn [RewriteModel.rrbind].
+  rewrite RewriteWire.skipn_len_app.
+  unfold RewriteWire.pbody, RewriteModel.DecodeTag.
+  rewrite shr64_div by lia. unfold and64. rewrite land7. change (2 ^ 3) with 8.
+  assert (E1 : (num * 8 + wt) / 8 = num).
+  { rewrite Z.add_comm. rewrite Z.div_add by lia. rewrite Z.div_small by lia. lia. }
+  assert (E2 : (num * 8 + wt) mod 8 = wt).
+  { rewrite Z.add_comm. rewrite Z_mod_plus_full. apply Z.mod_small. lia. }
+  rewrite E1, E2.
+  destruct Hp as [p x H | p H | p H | lp s H].
+  - change (proto_varint =? proto_varint) with true. cbv iota.
+    rewrite (varint_of_app _ _ r H). rewrite len_app2.
+    destruct (len p + len r <? len p) eqn:G; [lia|].
+    rewrite RewriteWire.rslice_ok by (rewrite ?len_app2; lia). cbn [RewriteModel.rrbind].
+    rewrite RewriteWire.rfrom_ok by (rewrite ?len_app2; lia). cbn [RewriteModel.rrbind].
+    rewrite RewriteWire.skipn_len_app. eexists; reflexivity.
+  - change (proto_fixed64 =? proto_varint) with false. change (proto_fixed64 =? proto_varlen) with false.
+    change (proto_fixed64 =? proto_fixed32) with false. change (proto_fixed64 =? proto_fixed64) with true. cbv iota.
+    rewrite len_app2. destruct (len p + len r <? 8) eqn:G; [lia|].
+    rewrite RewriteWire.rslice_ok by (rewrite ?len_app2; lia). cbn [RewriteModel.rrbind].
+    rewrite RewriteWire.rfrom_ok by (rewrite ?len_app2; lia). cbn [RewriteModel.rrbind].
+    rewrite <- H. rewrite RewriteWire.skipn_len_app. eexists; reflexivity.
+  - change (proto_fixed32 =? proto_varint) with false. change (proto_fixed32 =? proto_varlen) with false.
+    change (proto_fixed32 =? proto_fixed32) with true. cbv iota.
+    rewrite len_app2. destruct (len p + len r <? 4) eqn:G; [lia|].
+    rewrite RewriteWire.rslice_ok by (rewrite ?len_app2; lia). cbn [RewriteModel.rrbind].
+    rewrite RewriteWire.rfrom_ok by (rewrite ?len_app2; lia). cbn [RewriteModel.rrbind].
+    rewrite <- H. rewrite RewriteWire.skipn_len_app. eexists; reflexivity.
+  - change (proto_varlen =? proto_varint) with false. change (proto_varlen =? proto_varlen) with true. cbv iota.
+    apply wfb_app2 in Hwp. destruct Hwp as [Hwl Hws]. pose proof (varint_of_bounds _ _ Hwl H) as [Hll _].
+    rewrite len_app2 in Hlen, Np. pose proof (len_nonneg s) as Ns.
+    rewrite <- (app_assoc lp s r). rewrite (varint_of_app _ _ (s ++ r) H).
+    assert (Ew : w64 (len (lp ++ s ++ r) - len lp) = len s + len r) by (rewrite !len_app2; rewrite w64_id; lia).
+    rewrite Ew. replace (len s + len r <? len s) with false by lia. rewrite s64_id by lia.
+    rewrite RewriteWire.rslice_ok by (rewrite ?len_app2; lia). cbn [RewriteModel.rrbind].
+    rewrite RewriteWire.rfrom_ok by (rewrite ?len_app2; lia). cbn [RewriteModel.rrbind].
+    rewrite (app_assoc lp s r). rewrite <- (len_app2 lp s). rewrite RewriteWire.skipn_len_app. eexists; reflexivity.
+Qed.
+
+Lemma scan_of_fields : forall l, Forall pf_ok l -> forall k, wfb (pfs_bytes l) = true -> len (pfs_bytes l) < 2 ^ 62 ->
+  (length (pfs_bytes l) <= k)%nat -> exists out, ScanModel.scan k (pfs_bytes l) = RewriteModel.ROk out.
+Proof.
+  induction l as [|x l IH]; intros Hl k Hwf Hlen Hk.
+  - cbn [pfs_bytes]. destruct k; eexists; reflexivity.
+  - inversion Hl as [|x' l' Hx Hl']; subst. cbn [pfs_bytes] in *.
+    assert (Hwx : wfb (pf_bytes x) = true) by (apply wfb_app2 in Hwf; tauto).
+    pose proof (pf_len x Hx Hwx) as [Hlt Hlp].
+    assert (Hlx : len (pf_bytes x) = len (pf_tg x) + len (pf_p x)) by (unfold pf_bytes; apply len_app2).
+    destruct (parse_of_field x (pfs_bytes l) Hx Hwf Hlen) as (v & EP).
+    rewrite app_length in Hk. destruct k as [|k]; [unfold len in *; lia|].
+    destruct (IH Hl' k) as (out & ES).
+    + apply wfb_app2 in Hwf. tauto.
+    + rewrite len_app2 in Hlen. lia.
+    + unfold len in *. lia.
+    + destruct (pf_bytes x ++ pfs_bytes l) as [|c b'] eqn:Eb.
+      { apply (f_equal (@length Z)) in Eb. rewrite app_length in Eb. cbn [length] in Eb. unfold len in *. lia. }
+      change (ScanModel.scan (S k) (c :: b')) with
+        (match RewriteModel.Parse (c :: b') with
+         | RewriteModel.ROk (fn, t, v, m) =>
+             match ScanModel.scan k m with
+             | RewriteModel.ROk l => RewriteModel.ROk ((fn, t, v) :: l)
+             | RewriteModel.RErr e => RewriteModel.RErr e
+             | RewriteModel.RPanic => RewriteModel.RPanic
+             | RewriteModel.RFuel => RewriteModel.RFuel
+             end
+         | RewriteModel.RErr e => RewriteModel.RErr e
+         | RewriteModel.RPanic => RewriteModel.RPanic
+         | RewriteModel.RFuel => RewriteModel.RFuel
+         end).
+      rewrite EP, ES. eexists; reflexivity.
+Qed.
+
+Theorem scan_accepts_fields : scan_accepts_fields_statement.
+Proof.
+  intros b Hwf Hlen Hb. apply fields_seq_pf in Hb. destruct Hb as (l & Hl & ->).
+  apply scan_of_fields; [exact Hl | exact Hwf | exact Hlen | lia].
+Qed.
+
+(* ================= U10: any number of insertions; non-vacuity ================= *)
+Lemma unmarshal_ok t b old fuel : type_ok t = true -> wfb b = true -> len b < lim ->
+  (length b + depth_ty t + 1 <= fuel)%nat -> exists r, Unmarshal fuel t b old = Ok r.
+Proof.
+  intros Hok Hwf Hlim Hf. unfold Unmarshal. destruct (len b =? 0); [eexists; reflexivity|].
+  destruct (decode_total_strong t b old proto_toplevel fuel Hok Hwf Hlim Hf) as (n & e & v & E & Hn).
+  rewrite E. cbn [rbind]. destruct e; [eexists; reflexivity|]. destruct (n <? len b); eexists; reflexivity.
+Qed.
+
+Lemma widened_many_nil fuel t b b' : widened_many fuel t b b' -> b' = [] -> b = [].
+Proof.
+  induction 1 as [b | b b' b'' H IH Hw Hb]; intros E; [exact E|].
+  exfalso. apply (widened_nonempty _ _ _ Hw). exact E.
+Qed.
+
+Theorem unknown_nested_many : unknown_nested_many_statement.
+Proof.
+  intros t b b' old fuel Hok Hnok (Hwf & Hlim & Hf) Hm Hne.
+  induction Hm as [b | b b' b'' Hm IH Hw (Hwf'' & Hlim'' & Hf'')].
+  - destruct (unmarshal_ok t b old fuel Hok Hwf Hlim ltac:(clear - Hf; lia)) as (r & E). exists r. split; exact E.
+  - destruct (IH Hwf Hlim Hf Hne) as (r & E & E').
+    assert (Hb' : okb fuel t b').
+    { clear - Hm Hwf Hlim Hf. induction Hm as [b | b b' b'' Hm IH Hw Hb]; [repeat split; assumption | exact Hb]. }
+    destruct Hb' as (Hwf' & Hlim' & Hf').
+    assert (Hne' : b' <> [] \/ old = zero_val t).
+    { destruct b' as [|c b0]; [|left; discriminate]. right.
+      pose proof (widened_many_nil _ _ _ _ Hm eq_refl) as ->. destruct Hne as [Hne|Hne]; [contradiction | exact Hne]. }
+    destruct (unknown_nested t b' b'' old fuel Hok Hnok Hw Hwf' Hwf'' Hlim' Hlim'' Hf' Hf'' Hne') as (r' & E1 & E2).
+    exists r. split; [exact E|]. rewrite E' in E1. inversion E1; subst. exact E2.
+Qed.
+
+Theorem canonical_fields : canonical_fields_statement.
+Proof.
+  assert (V : forall x, 0 <= x < 2 ^ 64 -> varint_of (varint x) x).
+  { intros x Hx. unfold varint_of. pose proof (decodeVarint_encode x [] Hx) as H. rewrite app_nil_r in H. exact H. }
+  split; [exact V|]. split; [|split].
+  - intros num wt p Hn Hp. exists (varint (num * 8 + wt)), p. split; [reflexivity|]. split; [lia|].
+    split; [|exact Hp]. apply V. pose proof (payload_wt _ _ Hp). lia.
+  - intros x Hx. apply P_varint with (x := x). apply V, Hx.
+  - intros s Hs. apply P_varlen. apply V. pose proof (len_nonneg s). lia.
 Qed.
